@@ -40,6 +40,7 @@ type c04Case struct {
 	OnlyFlush  int      `json:"only_flush,omitempty"` // 1-based; 0 = all
 	OnlySubset []uint64 `json:"only_subset,omitempty"`
 	InRegion   bool     `json:"in_region,omitempty"` // run in-region subsets too (child process)
+	Bulk       bool     `json:"bulk,omitempty"`      // starts with an unflushed bulk load
 }
 
 func c04Gen(rt *rapid.T) c04Case {
@@ -51,7 +52,41 @@ func c04Gen(rt *rapid.T) c04Case {
 	db := model.NewDB()
 	c := c04Case{}
 	grown := 0
-	if rapid.IntRange(0, 2).Draw(rt, "grownfirst") > 0 {
+	if rapid.IntRange(0, 39).Draw(rt, "bulk") == 17 {
+		// one flush that has hundreds of dirty pages to write (a bulk load inside
+		// one timer interval), then ordinary small statements and flushes
+		cr := model.Stmt{Kind: "create", Table: "big", Cols: []model.Col{{Name: "a", Type: model.TInt}, {Name: "s", Type: model.TVarchar, Len: 16}}}
+		cr.SQL = gen.RenderStmt(gen.Plain(), cr)
+		gen.MustApply(db, cr)
+		c.Stmts = append(c.Stmts, cr)
+		rows := rapid.SampledFrom([]int{1040, 1100, 1200, 1400}).Draw(rt, "bulk_rows")
+		for n := 0; n < rows; {
+			ins := model.Stmt{Kind: "insert", Table: "big"}
+			for i := 0; i < 100 && n < rows; i++ {
+				ins.Rows = append(ins.Rows, []model.Val{model.Int(int64(n)), model.Str(fmt.Sprintf("v%d", n%7))})
+				n++
+			}
+			ins.SQL = gen.RenderStmt(gen.Plain(), ins)
+			gen.MustApply(db, ins)
+			c.Stmts = append(c.Stmts, ins)
+		}
+		grown = len(c.Stmts)
+		cfg.NoDDLAfterStart = true
+		cfg.RowCounts = []int{1, 1, 2}
+		cfg.MinStmts, cfg.MaxStmts = 2, 6
+		c.Bulk = true
+	} else if rapid.IntRange(0, 5).Draw(rt, "manytables") == 0 {
+		// a catalog about to outgrow its first page: one of the CREATE TABLEs of
+		// this history splits the catalog's root, and its closing flush has to
+		// publish a new catalog root through the header
+		for k := rapid.IntRange(4, 8).Draw(rt, "ntables"); k > 0; k-- {
+			cr := gen.CreateStmt(rt, 2, db)
+			gen.MustApply(db, cr)
+			c.Stmts = append(c.Stmts, cr)
+		}
+		cfg.MaxTables = 10
+		c.Stmts = append(c.Stmts, gen.History(rt, cfg, db)...)
+	} else if rapid.IntRange(0, 2).Draw(rt, "grownfirst") > 0 {
 		// phase 1: grow the tables over several leaves and flush; phase 2 then changes
 		// several existing pages between flushes without allocating - the multi-page
 		// flushes outside the listed finding's region
@@ -63,7 +98,9 @@ func c04Gen(rt *rapid.T) c04Case {
 		cfg.RowCounts = []int{1, 1, 1, 2}
 		cfg.MinStmts, cfg.MaxStmts = 4, 14
 	}
-	c.Stmts = append(c.Stmts, gen.History(rt, cfg, db)...)
+	if len(c.Stmts) == 0 || grown > 0 {
+		c.Stmts = append(c.Stmts, gen.History(rt, cfg, db)...)
+	}
 	// many flushes right after small, split-free statements: the region outside
 	// the listed finding must be well populated
 	mode := rapid.SampledFrom([]string{"always", "often", "often", "rare"}).Draw(rt, "flushmode")
@@ -72,7 +109,7 @@ func c04Gen(rt *rapid.T) c04Case {
 	}
 	for i := range c.Stmts {
 		if i < grown {
-			c.Stmts[i].FlushAfter = i == grown-1 || rapid.IntRange(0, 3).Draw(rt, "growfl") == 0
+			c.Stmts[i].FlushAfter = i == grown-1 || (!c.Bulk && rapid.IntRange(0, 3).Draw(rt, "growfl") == 0)
 			continue
 		}
 		switch mode {
@@ -425,6 +462,9 @@ func c04Run(c c04Case, st *vlib.Stats) string {
 		D := f.dirty()
 		fresh := f.hasFresh()
 		labels = append(labels, "flush-"+f.trigger)
+		if len(D) > 256 {
+			labels = append(labels, "flush-of-more-than-256-pages")
+		}
 		if len(D) > 0 {
 			if fresh {
 				labels = append(labels, "flush-with-fresh-pages")
